@@ -306,7 +306,19 @@ def scenario_suite(tape, out):
         else:
             tests.append(make_case(k, tid, hooks))
     suite = unittest.TestSuite(tests)
+    # optionally a first run on the same result objects that ends stopped: startTestRun must give a
+    # pristine result again (shouldStop false until the first bad outcome of *this* run)
+    first_run = tape.weighted("program", [(3, None), (1, "failfast-stop"), (1, "explicit-stop")], "earlier-run")
+    if stream_variant or (first_run == "failfast-stop" and mode == "off"):
+        first_run = None
     try:
+        if first_run:
+            top.startTestRun()
+            pre = testtools.PlaceHolder("earlier", outcome="addFailure" if first_run == "failfast-stop" else "addSuccess")
+            pre.run(top)
+            if first_run == "explicit-stop":
+                top.stop()
+            top.stopTestRun()
         top.startTestRun()
         suite.run(top)
         top.stopTestRun()
@@ -314,6 +326,8 @@ def scenario_suite(tape, out):
         import traceback
         out.violate("adapter-raised", "suite:" + type(e).__name__, f"stack {spec} mode {mode}: {traceback.format_exc()[-600:]}")
         return ("suite", spec, None)
+    if first_run:
+        out.probe("second-run-after-stopped-run")
     ran = [tid for what, tid in hooks if what == "run"]
     # model
     expect = []
@@ -331,8 +345,8 @@ def scenario_suite(tape, out):
             out.violate("failfast-late" if why == "failfast" else "stop-not-propagated", key,
                         f"tests dispatched {ran}, expected {expect}; kinds {kinds}; failfast {mode}; stop in {stop_in} on {stop_layer and stop_layer[0]}; stack {spec}")
         else:
-            out.violate("failfast-early", f"{mode}:" + ("stream" if stream_variant else _shape(spec)),
-                        f"tests dispatched {ran}, expected {expect}; kinds {kinds}; failfast {mode}; stack {spec}")
+            out.violate("failfast-early", f"{mode}:" + ("after-stopped-run:" if first_run else "") + ("stream" if stream_variant else _shape(spec)),
+                        f"tests dispatched {ran}, expected {expect}; kinds {kinds}; failfast {mode}; earlier run {first_run}; stack {spec}")
     # verdict at the end
     badn = sum(1 for tid in ran if kinds[int(tid[1:])] in BAD_KINDS)
     if not stream_variant:
